@@ -112,7 +112,8 @@ class AstNode(object):
         * namespace member
         * enumerator
         """
-        raise NotImplemented  # virtual function
+        # Nodes without a scope of their own (e.g. typedefs) have no members.
+        return None
 
     def unqualified_lookup(self, name):
         """Look for symbols within a scope.
